@@ -379,6 +379,87 @@ def sqlkill_init(chk: core.Check, max_k: int) -> None:
     chk.extra["sqlkill_init_events_total"] = total
 
 
+# ---- journal file: the OS cuts a write short while the writer stays alive (file size limit / disk full) -------------------
+CHILD_SHORT = r"""
+import json, os, resource, signal, sys
+sys.path.insert(0, %(root)r)
+import optuna
+from optuna.storages import JournalStorage
+from optuna.storages.journal import JournalFileBackend, JournalFileOpenLock, JournalFileSymlinkLock
+optuna.logging.set_verbosity(optuna.logging.ERROR)
+path, lock_kind = sys.argv[1], sys.argv[2]
+signal.signal(signal.SIGXFSZ, signal.SIG_IGN)
+def mk():
+    lk = (JournalFileSymlinkLock if lock_kind == "symlink" else JournalFileOpenLock)(path)
+    return JournalStorage(JournalFileBackend(path, lock_obj=lk))
+st = mk()
+sid = st.create_new_study([optuna.study.StudyDirection.MINIMIZE], "s")
+tid = st.create_new_trial(sid)
+st.set_trial_user_attr(tid, "base", 0)
+out = []
+soft0, hard0 = resource.getrlimit(resource.RLIMIT_FSIZE)
+for i, room in enumerate([0, 1, 7, 40, 90, 150, 100000]):
+    size = os.path.getsize(path)
+    resource.setrlimit(resource.RLIMIT_FSIZE, (size + room, hard0))
+    key, val = "k%%d" %% i, "v" * 60
+    try:
+        st.set_trial_user_attr(tid, key, val)
+        acked = True
+    except BaseException as e:
+        acked = False
+    finally:
+        resource.setrlimit(resource.RLIMIT_FSIZE, (soft0, hard0))
+    seen = []
+    err = None
+    try:
+        fresh = mk()
+        seen.append(key in fresh.get_trial(tid).user_attrs)
+        st.set_trial_user_attr(tid, "after%%d" %% i, 1)        # the survivor (the writer itself) goes on appending
+        fresh2 = mk()
+        ua = fresh2.get_trial(tid).user_attrs
+        seen.append(key in ua)
+        seen.append(("after%%d" %% i) in ua and "base" in ua)
+    except BaseException as e:
+        err = "%%s: %%s" %% (type(e).__name__, str(e)[:160])
+    out.append({"room": room, "acked": acked, "seen": seen, "err": err})
+print("RESULT " + json.dumps(out))
+"""
+
+
+def short_write_probe(chk: core.Check) -> None:
+    """RLIMIT_FSIZE lets the operating system cut the appender's write after `room` bytes (what a full disk or a quota
+    does) while the process lives on.  A call that RETURNED must be visible to every fresh opener and survive later
+    appends; a call that raised may leave a torn tail, which the next append repairs; nobody may fail afterwards."""
+    script = os.path.join(chk.tmp, "child_short.py")
+    with open(script, "w") as f:
+        f.write(CHILD_SHORT % {"root": core.REPO})
+    for lock_kind in ("symlink", "open"):
+        path = os.path.join(chk.tmp, "short_%s_%d.log" % (lock_kind, os.getpid()))
+        p = subprocess.run([sys.executable, script, path, lock_kind], capture_output=True, text=True, timeout=300, env=dict(os.environ))
+        line = next((l for l in p.stdout.splitlines() if l.startswith("RESULT ")), None)
+        if line is None:
+            chk.extra.setdefault("short_write_errors", []).append(p.stderr[-300:])
+            chk.count("short-write:infra")
+            continue
+        for r in json.loads(line[7:]):
+            chk.case({"part": "short-write", "lock": lock_kind, "room": r["room"], "acked": r["acked"]}, nontrivial=not r["acked"])
+            chk.count("short-write:%s" % ("acked" if r["acked"] else "raised"))
+            if r["err"]:
+                chk.violation({"kind": "survivor-fails-after-short-write", "lock": lock_kind}, {"part": "short-write", "lock": lock_kind, "result": r},
+                              "%s lock: after a write cut short by the OS at %d bytes (call %s) later reads / appends fail: %s" % (
+                                  lock_kind, r["room"], "returned" if r["acked"] else "raised", r["err"]))
+                return
+            if r["acked"] and not all(r["seen"][:2]):
+                chk.violation({"kind": "acked-write-lost-short-write", "lock": lock_kind}, {"part": "short-write", "lock": lock_kind, "result": r},
+                              "%s lock: set_trial_user_attr RETURNED although the OS accepted only %d bytes of its record; fresh openers see it: %s" % (
+                                  lock_kind, r["room"], r["seen"]))
+                return
+            if not r["seen"][2:] or not r["seen"][2]:
+                chk.violation({"kind": "later-append-lost-short-write", "lock": lock_kind}, {"part": "short-write", "lock": lock_kind, "result": r},
+                              "%s lock: after a write cut short at %d bytes a later acknowledged append (or earlier data) is not visible" % (lock_kind, r["room"]))
+                return
+
+
 def search(chk: core.Check) -> None:
     chk.search_log.append("searching more crash scenarios on the real file backend")
     explore(chk, 60, False)
@@ -408,6 +489,10 @@ def main(chk: core.Check) -> int:
         chk.extra["sqlkill_init_error"] = str(e)[:300]
     chk.extra["wall_sqlkill_init_s"] = round(_t.time() - t0, 1)
     t0 = _t.time()
+    try:
+        short_write_probe(chk)
+    except Exception as e:  # noqa: BLE001
+        chk.extra["short_write_error"] = str(e)[:300]
     try:
         c05_txn.check_sessions(chk)   # one transaction per RDBStorage call: shape, real BEGIN/COMMIT, kill at every SQL event
     except core.DriverBroken as e:
